@@ -281,6 +281,7 @@ end SrvLines
       fapp <assigned prio> <manifest prio|~> <lease|~> <retention|~>   -> <prio> <lease|E> <retention|-|E>
       fbkt <name> <level|~>                                            -> <level>
       fsrv <partition|~>                                               -> <label>
+      frld <cur m,c,d,label,traits,parent|~> <record same|~>             -> loadNew|removed|same|replaced
       fidg <existing ids csv> <stored id:(e|n|<count>) csv>            -> rm=<csv> cfg=<id:count csv> -/
 namespace DecodeLines
 open TmVerif.LoaderDecode TmVerif.Units
@@ -303,6 +304,14 @@ def line (ws : List String) : Option String :=
     pure s!"{p} {l} {r}"
   | ["fbkt", name, lvl] => do pure (eStr (bucketLevel (← dStr name) (← dOpt lvl)))
   | ["fsrv", part] => do pure (eStr (serverLabel (← dOpt part)))
+  | ["frld", cur, rec] => do
+    let pA : String → Option (Option SrvAttrs) := fun t =>
+      if t = "~" then some none else
+      match (t.splitOn ",").mapM String.toInt? with
+      | some [m, c, d, l, tr, p] => some (some { cap := (m, c, d), label := l.toNat, traits := tr.toNat, parent := p.toNat })
+      | _ => none
+    pure (match reloadDecision (← pA cur) (← pA rec) with
+      | .loadNew => "loadNew" | .removed => "removed" | .same => "same" | .replaced => "replaced")
   | ["fidg", existing, stored] => do
     let st ← (csv stored).mapM (fun t => match t.splitOn ":" with
       | [g, d] => do
@@ -321,7 +330,7 @@ def stepLine' (s : DSt) (ws : List String) : DSt × String :=
   | w :: _ =>
     if w = "fadj" || w = "fevt" || w = "fpres" || w = "fpend" then
       (s, (SrvLines.line ws).getD "bad-op")
-    else if w = "fapp" || w = "fbkt" || w = "fsrv" || w = "fidg" then
+    else if w = "fapp" || w = "fbkt" || w = "fsrv" || w = "fidg" || w = "frld" then
       (s, (DecodeLines.line ws).getD "bad-op")
     else stepLine s ws
   | [] => stepLine s ws
